@@ -26,7 +26,7 @@ from checks_doc import _kwsig
 MAX_EVENTS = 30000
 
 
-def _reparse(j0):
+def _reparse(j0, all_elements=False):
     """serialize -> (dereference + label + parse) -> serialize, as a user would do it."""
     from statham.schema.parser import parse
     from statham.serializers import serialize_json
@@ -40,6 +40,8 @@ def _reparse(j0):
     try:
         schema = materialize(RefDict.from_uri(uri), context_labeller=title_labeller())
         elements = parse(schema)
+        if all_elements:        # serialize_json(*parse(document)): every parsed definition is passed too
+            return serialize_json(*elements), elements[0]
         return serialize_json(elements[0]), elements[0]
     finally:
         cleanup()
@@ -161,6 +163,12 @@ def replay_ser(state):
         j1, el1 = _reparse(copy.deepcopy(j0))
         obs["j1"] = j1
         obs["j1_tagged"] = codec.py_to_tagged(j1)
+        try:
+            ja, _ = _reparse(copy.deepcopy(j0), all_elements=True)
+            obs["ja"] = ja
+            obs["ja_tagged"] = codec.py_to_tagged(ja)
+        except ValueError:
+            pass
     except Exception as exc:  # noqa
         obs["j1_err"] = type(exc).__name__ + ": " + str(exc)[:160]
     # ---- the serializer's image reached WITHOUT the parser: the model's element record is
@@ -235,7 +243,8 @@ def _model_doc_roundtrip(st):
 def _names_key(clause, a, b, rest):
     """Root-cause key for a round trip that differs only in class names.  Known finding: the
     _N suffixes of de-duplication are re-dealt (the BASE names -- suffix stripped -- are the
-    same on both sides).  A base name that was not there before is a different cause."""
+    same on both sides, and so is the number of classes).  A base name that was not there before,
+    or a different number of definitions, is a different cause."""
     import re
     if clause != "definition-names-differ-only":
         return ("C06", clause) + tuple(rest)
@@ -248,9 +257,13 @@ def _names_key(clause, a, b, rest):
                 names.append(j["title"])
             out = {re.sub(r"_\d+$", "", n) for n in names}
         return out
-    if bases(a) == bases(b):
-        return ("C06", clause)
-    return ("C06", "class-base-names-changed") + tuple(rest)
+    def count(j):
+        return len(j.get("definitions") or {}) if isinstance(j, dict) and isinstance(j.get("definitions"), dict) else 0
+    if bases(a) != bases(b):
+        return ("C06", "class-base-names-changed") + tuple(rest)
+    if count(a) != count(b):        # suffixes re-dealt AND a class gained or lost: not the known finding
+        return ("C06", "number-of-classes-changed") + tuple(rest)
+    return ("C06", clause)
 
 
 def serializer_model_part(rep, pid, tier):
@@ -400,6 +413,9 @@ def run(pid, tier, replay_file=None):
             nontrivial.add(json.dumps(ob["j0"], sort_keys=True))
             add_event(si, "C06", '[id |-> @ID@, p |-> "C06", j0 |-> %s, j1 |-> %s]'
                       % (tlajson_to_tla(ob["j0_tagged"]), tlajson_to_tla(ob["j1_tagged"])))
+            if "ja_tagged" in ob:
+                add_event(si, "C06all", '[id |-> @ID@, p |-> "C06", j0 |-> %s, j1 |-> %s]'
+                          % (tlajson_to_tla(ob["j0_tagged"]), tlajson_to_tla(ob["ja_tagged"])))
             if "jm_err" in ob:
                 rep.violation(("C06", "dsl-roundtrip-raises", sig),
                               f"document serialized from the DSL form of {sjson(st)} cannot be round-tripped: {ob['jm_err']} ({json.dumps(ob.get('jm'))[:200]})",
@@ -456,7 +472,8 @@ def run(pid, tier, replay_file=None):
                        f"{json.dumps(jj)[:240]}: {clause}")
                 key = ("C03", clause, tag, _kwsig_json(jj))
             elif pid == "C06":
-                a, b = (ob.get("jm"), ob.get("jm1")) if tag == "C06dsl" else (ob["j0"], ob["j1"])
+                a, b = (ob.get("jm"), ob.get("jm1")) if tag == "C06dsl" else \
+                       (ob["j0"], ob.get("ja")) if tag == "C06all" else (ob["j0"], ob["j1"])
                 msg = (f"round trip is not the identity ({tag}): {json.dumps(a)[:200]} -> "
                        f"{json.dumps(b)[:200]}")
                 key = _names_key(clause, a, b, (_kwsig_json(a),))
@@ -539,7 +556,7 @@ def _fix(rec):
 
 
 def _slim(ob):
-    return {k: (v if k in ("parse", "kinds", "j0", "j1", "jd", "jd_err", "jv", "jv_err", "jm", "jm1", "jm_err", "j0_err", "j1_err", "py_err", "elem_err") else "...")
+    return {k: (v if k in ("parse", "kinds", "j0", "j1", "jd", "jd_err", "jv", "jv_err", "jm", "jm1", "jm_err", "j0_err", "j1_err", "py_err", "elem_err", "ja", "jx", "jc") else "...")
             for k, v in ob.items()}
 
 
